@@ -117,21 +117,26 @@ Record obs := mkObs {
   o_cols   : list bool                (* Column(n) != nil for n = -1 .. NColumns+1 *)
 }.
 
-(* byte encoding: one byte per number (offset 5, 255 = out of range), lists
-   prefixed by their length in two bytes *)
+(* byte encoding.  A number is one byte when it is in -5..244 (offset 5), two
+   bytes [250+k; b] for 245 + 256k + b up to 1524 (rows of several hundred
+   cells, tables of several hundred rows), 255 beyond; lists are prefixed by
+   their length in two bytes (base 250). *)
 Local Open Scope Z_scope.
-Definition enc_z (z : Z) : N := if (z <? -5) || (249 <? z) then 255%N else Z.to_N (z + 5).
+Definition enc_z (z : Z) : list N :=
+  if (z <? -5) || (1524 <? z) then [255%N]
+  else if z <=? 244 then [Z.to_N (z + 5)]
+  else [Z.to_N (250 + (z - 245) / 256); Z.to_N ((z - 245) mod 256)].
 Definition enc_len (n : nat) : list N := [Z.to_N (Z.of_nat n / 250); Z.to_N (Z.of_nat n mod 250)].
 Definition enc_bool (b : bool) : N := if b then 1%N else 0%N.
 Definition enc_list {B} (f : B -> list N) (l : list B) : list N := enc_len (length l) ++ flat_map f l.
-Definition enc_ocell (c : ocell) : list N := let '(r, k, x) := c in [enc_z r; enc_z k; enc_z (Z.of_N x)].
+Definition enc_ocell (c : ocell) : list N := let '(r, k, x) := c in enc_z r ++ enc_z k ++ enc_z (Z.of_N x).
 Definition enc_orow (r : orow) : list N :=
-  [enc_bool (or_sep r); enc_bool (or_nil r); enc_z (fst (or_loc r)); enc_z (snd (or_loc r))]
+  [enc_bool (or_sep r); enc_bool (or_nil r)] ++ enc_z (fst (or_loc r)) ++ enc_z (snd (or_loc r))
   ++ enc_list enc_ocell (or_cells r).
 Definition enc_obs (o : obs) : list N :=
-  [enc_z (o_nrows o); enc_z (o_ncols o)]
+  enc_z (o_nrows o) ++ enc_z (o_ncols o)
   ++ match o_header o with None => [0%N] | Some h => 1%N :: enc_list enc_ocell h end
   ++ enc_list enc_orow (o_rows o)
-  ++ enc_list (fun h => let '(r, c, x) := h in enc_z r :: enc_z c :: enc_ocell x) (o_hits o)
+  ++ enc_list (fun h => let '(r, c, x) := h in enc_z r ++ enc_z c ++ enc_ocell x) (o_hits o)
   ++ enc_list (fun b => [enc_bool b]) (o_cols o).
 Close Scope Z_scope.
